@@ -7,6 +7,7 @@ import warnings
 import numpy as np
 import torch
 from ..lib.core import f2b, b2f
+from ..lib.watchdog import time_limit, CallTimeout
 
 logging.disable(logging.WARNING)
 warnings.filterwarnings('ignore')
@@ -96,7 +97,13 @@ def run(ctx):
             continue          # grazing: C12
         v = torch.tensor(ray, dtype=torch.float64)
         nv = torch.tensor(nrm, dtype=torch.float64)
-        out = LR.refract(v, nv, n1, n2, error=err).numpy().astype(np.float64).reshape(2, 3)
+        try:
+            with time_limit(20.0):
+                out = LR.refract(v, nv, n1, n2, error=err).numpy().astype(np.float64).reshape(2, 3)
+        except CallTimeout:
+            ctx.note('refract did not return within 20 s for an ordinary ray (termination is decided by C12): %s' % (rec,))
+            ctx.count('refract/no_return_within_20s')
+            continue
         o = out[1]
         ctx.count('refract/' + ('equal' if n1 == n2 else 'dense_to_rare' if n1 > n2 else 'rare_to_dense'))
         if mref is not None:
@@ -211,8 +218,13 @@ def run(ctx):
         ts = np.array([LR.reflect(torch.tensor(rays[i]), torch.tensor(nrms[i])).numpy().reshape(2, 3) for i in range(bs)])
         if not np.allclose(tb, ts, atol=1e-6):
             ctx.violation('torch reflect: batch differs from ray-by-ray calls', {'batch': bs}, {'api': 'torch', 'fn': 'reflect', 'what': 'batch'})
-        rb = LR.refract(torch.tensor(rays), torch.tensor(nrms), 1.0, 1.5).numpy().reshape(bs, 2, 3)
-        rs = np.array([LR.refract(torch.tensor(rays[i]), torch.tensor(nrms[i]), 1.0, 1.5).numpy().reshape(2, 3) for i in range(bs)])
+        try:
+            with time_limit(60.0):
+                rb = LR.refract(torch.tensor(rays), torch.tensor(nrms), 1.0, 1.5).numpy().reshape(bs, 2, 3)
+                rs = np.array([LR.refract(torch.tensor(rays[i]), torch.tensor(nrms[i]), 1.0, 1.5).numpy().reshape(2, 3) for i in range(bs)])
+        except CallTimeout:
+            ctx.note('refract did not return within 60 s for a batch of ordinary rays (termination is decided by C12)')
+            continue
         # the batch iterates until every ray has converged, so batch results are at least as accurate: compare within tolerance
         if not np.allclose(rb, rs, atol=2e-2):
             ctx.violation('torch refract: batch differs from ray-by-ray calls', {'batch': bs}, {'api': 'torch', 'fn': 'refract', 'what': 'batch'})
